@@ -21,6 +21,7 @@ def run(ctx, rep):
     rule_cache_protocol(F, rep, "cache-writers", keys=None)
     # ---- no residue: who writes the long-lived state
     n = 0
+    other_stores = {}
     for fn in stream_fns(F):
         for blk in fn["body"]["blocks"]:
             if blk["cleanup"]:
@@ -36,6 +37,8 @@ def run(ctx, rep):
                     if top in ("ehdr", "shdrs", "phdrs", "stream_len", "bufs"):
                         rep.bad("no-residue", "%s|store|%s" % (fn["qual"], ".".join(names)), wh(st["span"]),
                                 "%s assigns to self.%s outside construction" % (fn["qual"], ".".join(names)))
+                    else:
+                        other_stores.setdefault(fn["qual"], []).append((top, st["span"]))
         an = analyze_fn(F, fn)
         for cs in an.calls():
             for i, lv in enumerate(cs.arg_lvs):
@@ -46,6 +49,31 @@ def run(ctx, rep):
                 if path and path[0] in ("ehdr", "shdrs", "phdrs", "stream_len") and lv[0][0] == "M":
                     rep.bad("no-residue", "%s|&mut %s" % (fn["qual"], ".".join(map(str, path))), cs.where(),
                             "%s hands out &mut self.%s to %s" % (fn["qual"], path[0], cs.callee_norm))
+    # any other field written through self (a memo, a tracked position, ...): on every path that ends in an error the field holds the
+    # value it had on entry - state recorded before the fallible step it describes is residue of the failed call
+    for q, stores in sorted(other_stores.items()):
+        fn = F.fn(q)
+        an = analyze_fn(F, fn)
+        ps = an.paths()
+        w_ = wh(stores[0][1])
+        if not fn["sig"]["output"].replace(" ", "").startswith(("Result<", "core::result::Result<", "std::result::Result<")) and "Result" not in norm(fn["sig"]["output"])[:20]:
+            continue          # cannot fail: nothing to leave behind
+        if ps is None:
+            rep.bad("no-residue", "%s|store|%s" % (q, stores[0][0]), w_, "UNRECOGNISED: %s writes self.%s and is not loop-free: cannot show that its error paths leave the field untouched" % (q, stores[0][0]))
+            continue
+        dirty = set()
+        for t, st, calls in ps:
+            if not (t.op == "agg" and t.args[3] == "Err"):
+                continue
+            for (root, path), val in st.env.items():
+                if root == ("M", T.param(1)) and path and path[0][0] == "f" and path[0][2] in {x for x, _ in stores}:
+                    init = T.deref(T.param(1))
+                    for e in path:
+                        init = T.proj(init, e)
+                    if an.simp(val, st.facts) is not init:
+                        dirty.add(path[0][2])
+        rep.require(not dirty, "no-residue", "%s|store-on-error-path" % q, w_, "fields %s written through self are unchanged on every error path" % sorted({x for x, _ in stores}),
+                    "%s returns an error on a path on which it has already changed self.%s: a failed call leaves state behind that later calls act on" % (q, ", self.".join(sorted(dirty))))
     rep.ok("no-residue", "stores through self in elf_stream", "src/elf_stream.rs",
            "no accessor writes ehdr/shdrs/phdrs/stream_len/bufs through self (%d field stores inspected); the cache is written only via "
            "load_bytes/clear_cache (rule cache-writers)" % n)
